@@ -72,6 +72,29 @@ _POOL = {32: [0, 1, -1, 2, 3, -2, -(1 << 31), (1 << 31) - 1, -(1 << 31) + 1, 463
          8: [0, 1, 2, 127, 128, 255]}
 
 
+def _f64(x):
+    import struct
+    return struct.unpack("<Q", struct.pack("<d", x))[0]
+
+
+def _f32(x):
+    import struct
+    return struct.unpack("<I", struct.pack("<f", x))[0]
+
+
+_FVALS = [0.0, -0.0, 0.5, -0.5, 0.99999, 1.0, -1.0, 5.75, -7.9, 2147483647.0, 2147483648.0, -2147483648.0, -2147483649.0,
+          -2147483648.5, 2147483647.5, 3000000000.0, 4294967296.0, 4294967301.0, -4294967301.0, 9223372036854775807.0,
+          9223372036854775808.0, -9223372036854775808.0, -9223372036854777856.0, 1.8446744073709552e19, 1.0e30, -1.0e30,
+          float("inf"), float("-inf"), 5e-324, 16777217.0, 9007199254740993.0]
+# boundary bit patterns incl. NaNs with different payloads and signs, largest value below 2^31 / 2^63
+FLOAT_PATTERNS = {
+    64: [_f64(x) for x in _FVALS] + [0x7FF8000000000000, 0xFFF8000000000000, 0x7FF0000000000001, 0x7FFFFFFFFFFFFFFF,
+                                     0x41DFFFFFFFFFFFFF, 0x43DFFFFFFFFFFFFF, 0xC1E0000000200000, 0xC3E0000000000001],
+    32: [_f32(x) for x in _FVALS if abs(x) < 3e38 or x != x or abs(x) == float("inf")] +
+        [0x7FC00000, 0xFFC00000, 0x7F800001, 0x7FFFFFFF, 0x4EFFFFFF, 0x5EFFFFFF, 0xCF000001, 0xDF000001],
+}
+
+
 def witness_args(lifted, extra, timeout_ms=30000, probes=60):
     """model of assumptions + extra with arrays short enough for the driver -> (model, argv, conc).
     Boundary-value candidates for the scalar arguments are tried first (each makes the query
@@ -83,14 +106,14 @@ def witness_args(lifted, extra, timeout_ms=30000, probes=60):
     s.add(*lifted.assumptions)
     s.add(*extra)
     s.add(*kern.array_elem_constraints(lifted.k, lifted.setup))
-    scal = [(n, t) for n, t in lifted.k.params if t.kind in ("int", "u8")]
+    scal = [(n, t) for n, t in lifted.k.params if t.kind in ("int", "u8", "float")]
     rnd = random.Random(hash(lifted.k.name) & 0xFFFF)
     m = None
     if scal and probes:
         for i in range(probes):
             s.push()
             for n, t in scal:
-                v = rnd.choice(_POOL[t.bits])
+                v = rnd.choice(FLOAT_PATTERNS[t.bits] if t.kind == "float" else _POOL[t.bits])
                 s.add(lifted.setup.vals[n] == BV(v % (1 << t.bits), t.bits))
             for n, t in lifted.k.arrays():
                 s.add(lifted.setup.lens[n] == BV(rnd.choice([0, 1, 2, 3, 5]), 64))
@@ -107,6 +130,63 @@ def witness_args(lifted, extra, timeout_ms=30000, probes=60):
         m = s.model()
     av, conc = kern.argv_of(lifted.k, lifted.setup, m, 0)
     return m, av, conc
+
+
+def boundary_inputs(kernel, quick=False):
+    """fixed boundary inputs for kernels with one float or (for int->float) one integer parameter"""
+    if not any("loat" in o for o in kernel.ops()):
+        return []
+    out = []
+    if len(kernel.params) == 1:
+        n, t = kernel.params[0]
+        vals = FLOAT_PATTERNS[t.bits] if t.kind == "float" else _POOL[t.bits] + [(1 << 24) + 1, (1 << 53) + 1, -(1 << 24) - 1, 123456789]
+        if quick and t.kind == "float":
+            f = _f64 if t.bits == 64 else _f32
+            vals = [f(x) for x in (5.75, -7.9, 2147483647.0 if t.bits == 64 else 2147483520.0, 2147483648.0, -2147483648.0,
+                                   -2147483649.0 if t.bits == 64 else -2147483904.0, 3000000000.0, 4294967301.0 if t.bits == 64 else 4294967808.0,
+                                   9223372036854775808.0, -9223372036854775808.0, 1.0e30, float("inf"), float("-inf"))]
+            vals += [0x7FF8000000000000, 0xFFF0000000000001] if t.bits == 64 else [0x7FC00000, 0xFF800001]
+        elif quick:
+            vals = [0, 1, -1, -(1 << (t.bits - 1)), (1 << (t.bits - 1)) - 1, (1 << 24) + 1, (1 << 53) + 1 if t.bits == 64 else 123456789, -7]
+        out = [{n: v % (1 << t.bits)} for v in vals]
+    else:
+        fl = [(n, t) for n, t in kernel.params if t.kind == "float"]
+        for i in range(8):
+            d = {}
+            for n, t in kernel.params:
+                pool = FLOAT_PATTERNS[t.bits] if t.kind == "float" else _POOL.get(t.bits, [0, 1])
+                d[n] = pool[(i * 7 + len(d) * 3) % len(pool)] % (1 << t.bits)
+            out.append(d)
+    return out
+
+
+def validate_inputs(lifted, which, traps, inputs, side_assumptions=()):
+    """run the lifted code (by model evaluation) and the real executable on given concrete scalar
+    inputs -> (runs, mismatches)"""
+    runs, bad = 0, []
+    for inp in inputs:
+        s = z3.Solver()
+        s.set("timeout", 20000)
+        s.add(*lifted.assumptions)
+        s.add(*side_assumptions)
+        for n, v in inp.items():
+            s.add(lifted.setup.vals[n] == BV(v, lifted.setup.vals[n].size()))
+        if s.check() != z3.sat:
+            continue
+        m = s.model()
+        ps = [p for p in lifted.paths if z3.is_true(m.eval(p.pc(), model_completion=True))]
+        if len(ps) != 1:
+            bad.append({"kernel": lifted.k.name, "backend": lifted.backend, "input": inp, "lifted": "%d paths" % len(ps), "real": None,
+                        "source": lifted.k.source()})
+            continue
+        av, conc = kern.argv_of(lifted.k, lifted.setup, m, which)
+        want = lifted.describe(ps[0], m)
+        got = observe(lifted.prog.run(av, timeout=60, env={"DORA_FLAGS": "--max-heap-size=16M"}), traps)
+        runs += 1
+        if tuple(want) != tuple(got):
+            bad.append({"kernel": lifted.k.name, "backend": lifted.backend, "argv": av, "lifted": list(want), "real": list(got),
+                        "source": lifted.k.source()})
+    return runs, bad
 
 
 def validate_paths(lifted, which, traps, side_assumptions=(), max_paths=12):
